@@ -140,7 +140,14 @@ class Cx:
         if o.im == 0 and _exact(o.re) and Fraction(o.re).denominator == 1:
             k = int(o.re)
             if abs(k) > 64:
-                raise Undefined("exponent outside the exact range")
+                # no exact big powers (they made the harness itself slow): floating point, undefined on overflow
+                try:
+                    z = complex(self) ** k
+                except (OverflowError, ZeroDivisionError, ValueError) as e:
+                    raise Undefined("exponent outside the exact range: " + str(e)) from e
+                if z != z or abs(z) == float("inf"):
+                    raise Undefined("exponent outside the exact range")
+                return Cx(z.real, z.imag)
             if k >= 0:
                 r = Cx(1)
                 for _ in range(k):
